@@ -107,23 +107,48 @@ def run(ctx):
         mono.append({'fault': fk, 'mode': 'mono-after', 'reuse': False, 'files': f0 + units.split_files(rng, extra, rng.choice([1, 2]))})
     cases += mono
 
+    NAME_SCHEMES = {'plain': lambda j: f'f{j}.st',
+                    # names that differ only in letter case, and equal names in different directories
+                    'case': lambda j: ['unit.st', 'Unit.st', 'UNIT.st', 'uNit.st', 'unIt.st'][j % 5],
+                    'dirs': lambda j: f'{"abcde"[j % 5]}/unit.st'}
     def texts(c):
-        return [BAD_TEXTS[f[2:]] if isinstance(f, str) else units.print_file(f, None) for f in c['files']]
+        # a third of the sets with OSCAT description headers (layout/comment bodies) in front of declarations and around
+        # the text of a file that does not parse; a third in a varied spelling
+        deco = rng.random() < 0.34
+        vary = rng.random() < 0.34
+        out = []
+        for f in c['files']:
+            if isinstance(f, str):
+                t = BAD_TEXTS[f[2:]]
+                if deco:
+                    t = units.oscat_header(rng) + t
+                    if f[2:] != 'unclosed-comment':
+                        t += '\n' + units.oscat_header(rng) + 'TYPE\n  N7800 : INT(1..2);\nEND_TYPE\n'
+                out.append(t)
+            else:
+                out.append(units.print_file(f, rng if vary else None, vary=vary, headers=rng if deco else None))
+        c['deco'] = deco; c['vary'] = vary
+        c['scheme'] = rng.choice(['plain', 'plain', 'case', 'dirs'])
+        c['names'] = [NAME_SCHEMES[c['scheme']](j) for j in range(len(c['files']))]
+        return out
+    def names_arg(c):
+        return '' if c['scheme'] == 'plain' else '@names=' + ','.join(core.hexs(n) for n in c['names']) + ' '
     def enc(c):
         return units.enc_unit(['X' if isinstance(f, str) else f for f in c['files']])
     for c in cases: c['texts'] = texts(c)
-    impl = core.run_lines(core.VH, ['project ' + ' '.join(core.hexs(t) if t else '-' for t in c['texts']) for c in cases], jobs=12)
+    impl = core.run_lines(core.VH, ['project ' + names_arg(c) + ' '.join(core.hexs(t) if t else '-' for t in c['texts']) for c in cases], jobs=12)
     model = core.run_lines(core.PLCDRV, [enc(c) for c in cases], jobs=12) if ctx.model_available else [None] * len(cases)
     # the same sets reached through an edit history of the project (analyse, change one document, analyse again):
     # the result must be the one of the fresh project (a cached parse or verdict must not survive the edit)
     hx = lambda t: core.hexs(t) if t else '-'
     def edit_req(c):
         j = rng.randrange(len(c['texts']))
+        na = names_arg(c)
         stub = rng.choice(['', 'TYPE\nN7900 : INT(1..2);\nEND_TYPE\n', c['texts'][j]])
         init = [stub if k == j else t for k, t in enumerate(c['texts'])]
         edits = [f"{j}:{hx(c['texts'][j])}"]
         if rng.random() < 0.3: edits = [f"{j}:{hx(BAD_TEXTS['syntax'])}"] + edits
-        return 'projedit ' + ' '.join(hx(t) for t in init) + ' | ' + ' '.join(edits)
+        return 'projedit ' + na + ' '.join(hx(t) for t in init) + ' | ' + ' '.join(edits)
     edit_reqs = [edit_req(c) for c in cases]
     edited = core.run_lines(core.VH, edit_reqs, jobs=12)
     # the CLI on a sample of the same cases
@@ -131,8 +156,8 @@ def run(ctx):
     import concurrent.futures as cf
     def do_cli(i):
         c = cases[i]
-        files = {f'f{j}.st': t for j, t in enumerate(c['texts'])}
-        return cli.check_files(files, order=[f'f{j}.st' for j in range(len(files))])
+        files = {c['names'][j]: t for j, t in enumerate(c['texts'])}
+        return cli.check_files(files, order=[c['names'][j] for j in range(len(files))])
     with cf.ThreadPoolExecutor(12) as ex:
         cli_res = dict(zip(sample_idx, ex.map(do_cli, sample_idx)))
     prev = None
@@ -140,9 +165,12 @@ def run(ctx):
         ctx.evaluations += 1
         ctx.count(f"fault:{c['fault']}")
         ctx.count(f"mode:{c['mode']}{'+reuse-' + str(c['reuse']) if c['reuse'] else ''}")
+        ctx.count(f"names:{c['scheme']}")
+        if c['deco']: ctx.count('oscat-headers')
+        if c['vary']: ctx.count('varied-spelling')
         status, codes = parse_impl(io)
         groups = parse_model(mo) if mo is not None else None
-        show = {'fault': c['fault'], 'mode': c['mode'], 'reuse_name': c['reuse'], 'texts': c['texts'], 'unit': enc(c)}
+        show = {'fault': c['fault'], 'mode': c['mode'], 'reuse_name': c['reuse'], 'texts': c['texts'], 'unit': enc(c), 'file_names': c['names']}
         if len(c['files']) >= 2:
             ctx.feature((c['fault'], c['mode'], c['reuse'], tuple(len(f) if not isinstance(f, str) else -1 for f in c['files'])))
         if status == 'crash':
